@@ -209,6 +209,25 @@ theorem forms_fractional_day (y m d h mi : Int) (s : ℚ) (hv : Valid y m d) (hh
   congr 1
   norm_num
 
+/-- `Epoch.check_input_date`: the date given as separate values, tuple/list (extra values are
+    dropped), `date`, `datetime` (time of day dropped) is `Epoch(y, m, d)`; an `Epoch` is returned as it is. -/
+theorem check_input_date_forms (y m d : Int) (mo : MonthArg) (dq : ℚ) (rest : List ℚ) (h mi s us : Int) (e : Epoch) :
+    check_input_date (.many (.ymd y mo dq rest)) = Epoch.init (.many (.ymd y mo dq [])) ∧
+    check_input_date (.seq (.ymd y mo dq rest)) = Epoch.init (.many (.ymd y mo dq [])) ∧
+    check_input_date (.date y m d) = Epoch.init (.many (.ymd y (.num m) (ofInt d) [])) ∧
+    check_input_date (.datetime y m d h mi s us) = Epoch.init (.many (.ymd y (.num m) (ofInt d) [])) ∧
+    check_input_date (.epoch e) = .ok e :=
+  ⟨rfl, rfl, rfl, rfl, rfl⟩
+
+/-- Why the h/m/s form is fragile in binary64 (known finding C02-reform-eve-hms-rounds-to-day-5): in
+    the model `_compute_jde` is NOT monotone in the day across the reform — "October 5.0, 1582" is read
+    as a Gregorian date and lies 9 days BEFORE October 4.0 (10 days before the end of October 4).  In
+    exact arithmetic `4 + h/24 + mi/1440 + s/86400 < 5` (theorem `forms_hms`); in binary64 the sum can
+    round up to 5.0. -/
+theorem compute_jde_reform_step_counterexample :
+    compute_jde 1582 10 5 = compute_jde 1582 10 4 - 9 ∧ compute_jde 1582 10 4 = 2299159.5 := by
+  constructor <;> decide +kernel
+
 /-! ### Arithmetic -/
 
 /-- "Adding days translates the time axis": `e + x` is the Epoch at `jde e + x`. -/
